@@ -203,6 +203,7 @@ def _env(extra=None):
     env = dict(os.environ)
     env['PYTHONHASHSEED'] = '0'
     env['PYTHONDONTWRITEBYTECODE'] = '1'
+    env['PYTHONUTF8'] = '1'
     env.setdefault('DDSMT_SIM_REPO', '/repo')
     if extra:
         env.update(extra)
